@@ -107,12 +107,35 @@ FUNCS += [
     dict(id='ExpandToml', file='src/assign.rs', fn='expand', mod='toml', impl=None, lean='toml.expand',
          params=[('remaining', 'ptrself'), ('value', 'val')], ret='pure', rtype='Val', imports=['SplitBack']),
 ]
+ASG_T = 'Val × Res AssignErr (Option Val)'
+for _b, _obj in (('json', 'Object'), ('toml', 'Table')):
+    _B = _b.capitalize()
+    FUNCS += [
+        dict(id=f'AssignScalar{_B}', file='src/assign.rs', fn='assign_scalar', mod=_b, impl=None, lean=f'{_b}.assign_scalar', backend=_b,
+             params=[('remaining', 'ptrself'), ('scalar', 'vrefmut'), ('value', 'val')], ret='mutdoc', docres='plain', rtype='Val × Assigned', imports=[f'Expand{_B}']),
+        dict(id=f'AssignObject{_B}', file='src/assign.rs', fn='assign_object', mod=_b, impl=None, lean=f'{_b}.assign_object', backend=_b,
+             params=[('token', 'tok'), ('remaining', 'ptrself'), ('obj', 'orefmut'), ('src', 'val')], ret='mutdoc', docres='plain', rtype='Val × Assigned',
+             imports=[f'Expand{_B}', 'IsRoot']),
+        dict(id=f'AssignArray{_B}', file='src/assign.rs', fn='assign_array', mod=_b, impl=None, lean=f'{_b}.assign_array', backend=_b,
+             params=[('token', 'tok'), ('remaining', 'ptrself'), ('array', 'arefmut'), ('src', 'val'), ('position', 'nat'), ('offset', 'nat')],
+             ret='mutdoc', docres='res', rtype='Val × Res AssignErr Assigned', imports=[f'Expand{_B}', 'IsRoot', 'ForLenIncl']),
+        dict(id=f'AssignValue{_B}', file='src/assign.rs', fn='assign_value', mod=_b, impl=None, lean=f'{_b}.assign_value', backend=_b,
+             params=[('ptr', 'ptrself'), ('dest', 'vrefmut'), ('value', 'val')], ret='mutdoc', docres='res', rtype=ASG_T,
+             imports=[f'AssignScalar{_B}', f'AssignObject{_B}', f'AssignArray{_B}', 'SplitFront']),
+        dict(id=f'Assign{_B}', file='src/assign.rs', fn='assign', mod=_b, impl=r"impl Assign for Value", lean=f'{_b}.assign', backend=_b,
+             params=[('self', 'docself'), ('ptr', 'ptrself'), ('value', 'intoval')], ret='mutdoc', docres='res', rtype=ASG_T, imports=[f'AssignValue{_B}']),
+    ]
+# free functions of the crate that take a `&mut` into the document: (arity, result type); the document is threaded through them
+DOCCALLS = {'assign_array': (6, 'res(assigned;assignerr)'), 'assign_object': (4, 'assigned'), 'assign_scalar': (3, 'assigned'),
+            'assign_value': (3, 'res(opt(val);assignerr)')}
+ENUM_FIELDS = {'Assigned::Continue': ['next_dest', 'same_value']}
+ENUM_PREFIX = {'index': 'Index', 'bound': 'Bound', 'assigned': 'Assigned'}
 SIBLINGS = {'split_back': ('Pointer.split_back', 'opt(tuple:ptrself,tok)'), 'split_front': ('Pointer.split_front', 'opt(tuple:tok,ptrself)'), 'is_root': ('Pointer.is_root', 'bool'), 'count': ('Pointer.count', 'nat'), 'split_at': ('Pointer.split_at', 'opt(tuple:bytes,bytes)'),
             'front': ('Pointer.front', 'opt(bytes)'), 'back': ('Pointer.back', 'opt(bytes)')}
 
 LEANTY = {'nat': 'Nat', 'bool': 'Bool', 'bytes': 'Bytes', 'cow': 'Cow', 'optnat': 'Option Nat', 'toklist': 'List Bytes',
           'tok': 'Bytes', 'index': 'Index', 'bound': 'Bound', 'ptr': 'Bytes', 'span': 'Span', 'tokself': 'Bytes',
-          'intocow': 'Bytes', 'unit': 'Unit', 'ptrself': 'Bytes', 'vref': 'Loc × Val', 'vroot': 'Val', 'bufself': 'Bytes', 'intotoken': 'Bytes', 'asrefptr': 'Bytes', 'docself': 'Val', 'val': 'Val', 'kvlist': 'List (Bytes × Val)', 'vallist': 'List Val'}
+          'intocow': 'Bytes', 'unit': 'Unit', 'ptrself': 'Bytes', 'vref': 'Loc × Val', 'vroot': 'Val', 'bufself': 'Bytes', 'intotoken': 'Bytes', 'asrefptr': 'Bytes', 'docself': 'Val', 'val': 'Val', 'aref': 'Loc × List Val', 'oref': 'Loc × List (Bytes × Val)', 'assigned': 'Assigned', 'intoval': 'Val', 'kvlist': 'List (Bytes × Val)', 'vallist': 'List Val'}
 
 # enums the subset may match on / construct: type tag -> [(lean ctor, [rust paths], [field types])]
 ENUMS = {
@@ -120,6 +143,7 @@ ENUMS = {
     'bound': [('.included', ['Bound::Included'], ['nat']), ('.excluded', ['Bound::Excluded'], ['nat']),
               ('.unbounded', ['Bound::Unbounded'], [])],
     'optnat': [('some', ['Some'], ['nat']), ('none', ['None'], [])],
+    'assigned': [('.done', ['Assigned::Done'], ['opt(val)']), ('.cont', ['Assigned::Continue'], ['vref', 'val'])],
     'vref': [('.arr', ['Value::Array'], ['aref']), ('.obj', ['Value::Object', 'Value::Table'], ['oref']), ('.scalar', ['<scalar>'], ['atom'])],
 }
 # unit-like error constants
@@ -142,7 +166,8 @@ def opt_inner(ty): return 'nat' if ty == 'optnat' else ty[4:-1]
 def mk_opt(inner): return 'optnat' if inner == 'nat' else f'opt({inner})'
 
 class Ctx:
-    def __init__(self, ret, cont=None, brk=None):
+    def __init__(self, ret, cont=None, brk=None, raw=None):
+        self.raw = raw or ret   # a complete return value (already paired with the document, if any) -> code leaving the function
         self.ret = ret      # lean term of the function's return type -> code leaving the function
         self.cont = cont    # env -> code for `continue` / falling off the end of a loop body
         self.brk = brk      # env -> code for `break`
@@ -163,6 +188,7 @@ class Fn:
         self.loops = []       # emitted loop definitions (strings)
         self.nloop = 0; self.nvar = 0
         self.retkind = spec['ret']; self.rtype = spec['rtype']
+        self.wrap = (lambda t: f"(self_doc, {t})") if self.retkind == 'mutdoc' else (lambda t: t)
     def fresh(self, base='x'):
         self.nvar += 1; return f"{base}{self.nvar}"
 
@@ -198,7 +224,8 @@ class Fn:
         if isinstance(node, list): return any(self.effectful(c) for c in node)
         if not isinstance(node, tuple) or not node: return False
         k = node[0]
-        if k in ('return', 'try', 'break', 'continue'): return True
+        if k in ('return', 'try', 'break', 'continue', 'dbgassert'): return True
+        if k == 'call' and node[1][0] == 'path' and (node[1][1][-1] in DOCCALLS or node[1][1][-2:] == ['mem', 'replace']): return True
         if k == 'index' and node[2][0] != 'range': return True
         if k == 'index' and node[2][0] == 'range': return True   # conservatively (may be a checked view)
         if k == 'closure': return False
@@ -267,6 +294,7 @@ class Fn:
         if k == 'pbind': return [p[1]]
         if k in ('ptuple',): return [v for q in p[1] for v in self.pat_binds(q)]
         if k == 'pctor': return [v for q in p[2] for v in self.pat_binds(q)]
+        if k == 'pstruct': return [v for _, q in p[2] for v in self.pat_binds(q)]
         if k == 'pref': return self.pat_binds(p[1])
         if k == 'por': return self.pat_binds(p[1][0])
         return []
@@ -373,14 +401,15 @@ class Fn:
         if t == 'try':
             def after(a, ta):
                 if is_res(ta):
-                    if self.retkind != 'res': raise Unsupported("? on a Result in a function not returning Result")
+                    if self.retkind != 'res' and not (self.retkind == 'mutdoc' and self.spec.get('docres') == 'res'):
+                        raise Unsupported("? on a Result in a function not returning Result")
                     tt, te = res_parts(ta)
                     if a.startswith('(Res.ok ') and a.endswith(')') and a.count('(') == a.count(')'):
                         return k(a[len('(Res.ok '):-1], tt)
                     if a.startswith('(Res.err '): return ctx.ret(a)
                     v = self.fresh('v'); ev = self.fresh('e'); mv = self.fresh('m')
                     return paren(f"match {a} with\n| .err {ev} => {ctx.ret(f'(Res.err {ev})')}\n| .panic {mv} => {ctx.ret(f'(Res.panic {mv})')}\n| .ok {v} =>\n{ind(k(v, tt))}")
-                if is_opt(ta) and self.retkind == 'mutdoc':
+                if is_opt(ta) and self.retkind == 'mutdoc' and not self.spec.get('docres'):
                     v = self.fresh('v')
                     return paren(f"match {a} with\n| none => {ctx.ret('.ok none')}\n| some {v} =>\n{ind(k(v, opt_inner(ta)))}")
                 if ta != 'optnat': raise Unsupported("? on " + ta)
@@ -431,6 +460,28 @@ class Fn:
             if ps in ('mem::replace', 'core::mem::replace', 'std::mem::replace') and len(args) == 2 and args[0] == ('path', ['self']) and env.get('self_doc') == 'val':
                 old = self.fresh('old')
                 return self.E(args[1], env, ctx, lambda a, ta: f"let {old} := self_doc\nlet self_doc := {a}\n{k(old, 'val')}" if ta == 'val' else self.bad("mem::replace with " + ta))
+            if ps.endswith('mem::replace') and len(args) == 2 and env.get('self_doc') == 'val' and args[0] != ('path', ['self']):
+                # `mem::replace(r, v)` through a reference into the document: read the old node, write the new one at its location
+                def aft_place(r, tr):
+                    if tr != 'vref': raise Unsupported("mem::replace through " + tr)
+                    def aft_new(a, ta):
+                        if ta != 'val': raise Unsupported("mem::replace with " + ta)
+                        t = self.fresh('t'); old = self.fresh('old')
+                        return f"let {t} := {r}\nlet {old} := {t}.2\nlet self_doc := self_doc.setAt {t}.1 {a}\n{k(old, 'val')}"
+                    return self.E(args[1], env, ctx, aft_new)
+                return self.E(args[0], env, ctx, aft_place)
+            if ps == 'expand' and len(args) == 2 and self.spec['file'].endswith('assign.rs'):
+                fn = self.spec.get('backend', 'json') + '.expand'
+                return self.E(args[0], env, ctx, lambda a, ta: self.E(args[1], env, ctx,
+                              lambda b, tb: k(f"({fn} {a} {b})", 'val') if (ta == 'ptrself' and tb == 'val') else self.bad("expand(" + ta + ", " + tb + ")")))
+            if ps in DOCCALLS and len(args) == DOCCALLS[ps][0] and env.get('self_doc') == 'val' and self.spec['file'].endswith('assign.rs'):
+                fn = self.spec.get('backend', 'json') + '.' + ps
+                def god(i, acc):
+                    if i == len(args):
+                        r = self.fresh('r')
+                        return paren(f"match ({fn} self_doc {' '.join(acc)}) with\n| (self_doc, {r}) =>\n{ind(k(r, DOCCALLS[ps][1]))}")
+                    return self.E(args[i], env, ctx, lambda a, ta: god(i + 1, acc + ['(([] : Loc), self_doc)' if ta == 'docref' else a]))
+                return god(0, [])
             if ps == 'Table::default' and not args: return k('TABLE0', 'table0')
             if ps in ('Map::new', 'Table::new', 'toml::Table::new', 'serde_json::Map::new') and not args: return k('([] : List (Bytes × Val))', 'kvlist')
             if ps == 'Value::Array' and len(args) == 1:
@@ -453,9 +504,12 @@ class Fn:
                 return self.E(args[0], env, ctx, lambda a, ta: k(f"(Cow.borrowed {a})", 'cow') if ta in ('bytes', 'tok') else self.bad("Cow::Borrowed of " + ta))
             for ty, ctors in ENUMS.items():
                 for (lc, rps, fts) in ctors:
-                    if ps in rps and len(fts) == len(args) == 1 and ty != 'optnat':
-                        pre = 'Index' if ty == 'index' else 'Bound'
-                        return self.E(args[0], env, ctx, lambda a, ta: k(f"({pre}{lc} {a})", ty))
+                    if ps in rps and len(fts) == len(args) == 1 and ty in ENUM_PREFIX:
+                        pre = ENUM_PREFIX[ty]
+                        def aft_ctor(a, ta, fts=fts, lc=lc, ty=ty, pre=pre):
+                            if fts[0].startswith('opt(') and not is_opt(ta): raise Unsupported(f"{ps}({ta})")
+                            return k(f"({pre}{lc} {a})", ty)
+                        return self.E(args[0], env, ctx, aft_ctor)
             raise Unsupported("call " + ps)
         if t == 'struct':
             ps = self.pathstr(e[1]); fields = dict(e[2])
@@ -490,6 +544,26 @@ class Fn:
                     if i == len(want): return k(f"(ResolveErr.{ctor} {' '.join(acc)})", 'resolveerr')
                     return self.E(fields[want[i]], env, ctx, lambda a, ta: go(i + 1, acc + [a]))
                 return go(0, [])
+            if ps in ('Error::FailedToParseIndex', 'Error::OutOfBounds') and self.spec['file'].endswith('assign.rs'):
+                ctor = {'Error::FailedToParseIndex': 'failedToParseIndex', 'Error::OutOfBounds': 'outOfBounds'}[ps]
+                want = ['position', 'offset', 'source']
+                if sorted(fields) != sorted(want): raise Unsupported("fields of " + ps)
+                def goa(i, acc):
+                    if i == len(want): return k(f"(AssignErr.{ctor} {' '.join(acc)})", 'assignerr')
+                    return self.E(fields[want[i]], env, ctx, lambda a, ta: goa(i + 1, acc + [a]))
+                return goa(0, [])
+            if ps in ENUM_FIELDS and [f for f, _ in e[2]] and sorted(fields) == sorted(ENUM_FIELDS[ps]):
+                # fields are evaluated in the order they are written, the constructor takes them in declaration order
+                order = [f for f, _ in e[2]]; vals = {}
+                def gof(i):
+                    if i == len(order): return k(f"(Assigned.cont {vals['next_dest'][0]} {vals['same_value'][0]})", 'assigned')
+                    def aft_f(a, ta, i=i):
+                        vals[order[i]] = (a, ta)
+                        want_t = {'next_dest': 'vref', 'same_value': 'val'}[order[i]]
+                        if ta != want_t: raise Unsupported(f"field {order[i]} of type {ta}")
+                        return gof(i + 1)
+                    return self.E(fields[order[i]], env, ctx, aft_f)
+                return gof(0)
             if ps == 'ReplaceError' and set(fields) == {'count', 'index'}:
                 return self.E(fields['index'], env, ctx, lambda iv, _: self.E(fields['count'], env, ctx,
                               lambda cv, __: k(f"(ReplaceErr.mk {iv} {cv})", 'replaceerr')))
@@ -646,6 +720,12 @@ class Fn:
                     c = self.fresh('c')
                     return k(f"(Option.map (fun {c} => ({r}.1 ++ [Step.key {a}], {c})) (lookup {a} {r}.2))", 'opt(vref)')
                 return self.E(args[0], env, ctx, aft_key)
+            if tr == 'index' and name == 'for_len_incl' and len(args) == 1:
+                return self.E(args[0], env, ctx, lambda a, ta: k(f"(Index.for_len_incl {r} {a})", mk_res('nat', 'ooberr')))
+            if tr == 'oref' and name == 'entry' and len(args) == 1:
+                return self.E(args[0], env, ctx, lambda a, ta: k(f"({r}, {a})", 'entry') if ta in BYTESLIKE else self.bad("entry(" + ta + ")"))
+            if tr == 'occentry' and name == 'into_mut' and not args: return k(r, 'vref')
+            if tr == 'intoval' and name == 'into' and not args: return k(r, 'val')
             if tr == 'index' and name == 'for_len' and len(args) == 1:
                 return self.E(args[0], env, ctx, lambda a, ta: k(f"(Index.for_len {r} {a})", mk_res('nat', 'ooberr')))
             if is_res(tr) and name == 'ok' and not args:
@@ -846,6 +926,12 @@ class Fn:
     def enum_ctor(self, p, ty):
         """(ctor index, subpatterns) if p is a constructor pattern of enum ty"""
         if p[0] == 'pctor': ps, subs = self.pathstr(p[1]), p[2]
+        elif p[0] == 'pstruct':
+            ps = self.pathstr(p[1])
+            if ps not in ENUM_FIELDS: raise Unsupported("struct pattern " + ps)
+            given = dict(p[2])
+            if any(f not in ENUM_FIELDS[ps] for f in given): raise Unsupported("unknown field in pattern " + ps)
+            subs = [given.get(f, ('pwild',)) for f in ENUM_FIELDS[ps]]
         elif p[0] == 'ppath': ps, subs = self.pathstr(p[1]), []
         else: return None
         for i, (lc, rps, fts) in enumerate(ENUMS[ty]):
@@ -893,6 +979,23 @@ class Fn:
             sc2 = scruts[:col] + list(zip(parts, tys)) + scruts[col + 1:]
             inner = self.compile_match(rows2, sc2, env, body_k)
             return paren(pre + ind(inner)) if pre else inner
+        if ty == 'entry':
+            # `map.entry(key)`: Occupied(e) — e is the member's place; Vacant(e) — e is (the map's place, the key)
+            if any(not self.irrefutable(q) for i, q in enumerate(pats) if i != col): raise Unsupported("two refutable columns")
+            arms = {}
+            for (ps_, g, pl) in rows:
+                q = self.strip_ref(ps_[col])
+                if g is not None or q[0] != 'pctor' or len(q[2]) != 1 or self.strip_ref(q[2][0])[0] != 'pbind': raise Unsupported("pattern on a map entry")
+                which = self.pathstr(q[1])
+                if which not in ('Entry::Occupied', 'Entry::Vacant', 'map::Entry::Occupied', 'map::Entry::Vacant'): raise Unsupported("pattern " + which)
+                arms.setdefault(which.split('::')[-1], (self.strip_ref(q[2][0])[1], pl))
+            if set(arms) != {'Occupied', 'Vacant'}: raise Unsupported("non-exhaustive match on a map entry")
+            en = self.fresh('en'); c = self.fresh('c')
+            (on, opl), (vn, vpl) = arms['Occupied'], arms['Vacant']
+            eo = dict(env); eo[on] = 'occentry'; ev = dict(env); ev[vn] = 'vacentry'
+            occ = f"let {on} := ({en}.1.1 ++ [Step.key {en}.2], {c})\n" + body_k(opl, eo)
+            vac = f"let {vn} := {en}\n" + body_k(vpl, ev)
+            return paren(f"let {en} := {s}\nmatch lookup {en}.2 {en}.1.2 with\n| some {c} =>\n{ind(occ)}\n| none =>\n{ind(vac)}")
         if ty in ENUMS:
             alts = []
             smatch = f"{s}.2" if ty == 'vref' else s
@@ -1059,6 +1162,23 @@ class Fn:
         if t == 'mcall' and e[2] == 'remove' and e[1][0] == 'path' and len(e[1][1]) == 1 and env.get(e[1][1][0]) == 'bytes' and e[3] == [('num', 0)]:
             v = e[1][1][0]
             return f"let {v} := {v}.drop 1\n{rest(env)}"
+        if t == 'dbgassert':
+            # checked in test and debug builds: a failing condition is a panic
+            if not (self.retkind in ('res',) or (self.retkind == 'mutdoc' and self.spec.get('docres') != 'plain')):
+                raise Unsupported("debug_assert! in a function that cannot panic")
+            return self.C(e[1], env, ctx, rest(env), ctx.ret('(Res.panic "debug_assert")' if self.retkind == 'mutdoc' else '.panic "debug_assert"'))
+        if t == 'mcall' and e[2] == 'push' and e[1][0] == 'path' and len(e[1][1]) == 1 and env.get(e[1][1][0]) == 'aref' and len(e[3]) == 1 and env.get('self_doc') == 'val':
+            v = e[1][1][0]
+            def aft_push(a, ta):
+                if ta != 'val': raise Unsupported("push of " + ta)
+                return f"let self_doc := self_doc.setAt {v}.1 (Val.arr ({v}.2 ++ [{a}]))\nlet {v} := ({v}.1, {v}.2 ++ [{a}])\n{rest(env)}"
+            return self.E(e[3][0], env, ctx, aft_push)
+        if t == 'mcall' and e[2] == 'insert' and e[1][0] == 'path' and len(e[1][1]) == 1 and env.get(e[1][1][0]) == 'vacentry' and len(e[3]) == 1 and env.get('self_doc') == 'val':
+            v = e[1][1][0]
+            def aft_ins(a, ta):
+                if ta != 'val': raise Unsupported("insert of " + ta)
+                return f"let self_doc := self_doc.setAt {v}.1.1 (Val.obj ({v}.1.2 ++ [({v}.2, {a})]))\n{rest(env)}"
+            return self.E(e[3][0], env, ctx, aft_ins)
         if t == 'mcall' and e[2] in ('push', 'extend_from_slice', 'push_str') and e[1][0] == 'path' and len(e[1][1]) == 1 and len(e[3]) == 1:
             v = e[1][1][0]
             if env.get(v) != 'bytes': raise Unsupported(e[2] + " on a non-buffer")
@@ -1164,6 +1284,13 @@ class Fn:
                 if ta == 'optres-call': return ctx.ret(a)
                 raise Unsupported("returned " + ta)
             return self.E(e, env, ctx, after)
+        if rk == 'mutdoc' and self.spec.get('docres') == 'res':
+            if t == 'call' and e[1][0] == 'path' and self.pathstr(e[1][1]) in ('Ok', 'Err') and len(e[2]) == 1:
+                which = 'Res.ok' if self.pathstr(e[1][1]) == 'Ok' else 'Res.err'
+                return self.E(e[2][0], env, ctx, lambda a, ta: ctx.ret(f"({which} {a})"))
+            return self.E(e, env, ctx, lambda a, ta: ctx.ret(a) if is_res(ta) else self.bad("returned value is not a Result"))
+        if rk == 'mutdoc' and self.spec.get('docres') == 'plain':
+            return self.E(e, env, ctx, lambda a, ta: ctx.ret(a) if ta == 'assigned' else self.bad("returned " + ta))
         if rk == 'mutdoc':
             if t == 'path' and e[1] == ['None']: return ctx.ret('.ok none')
             if t == 'call' and e[1][0] == 'path' and self.pathstr(e[1][1]) == 'Some' and len(e[2]) == 1:
@@ -1211,6 +1338,7 @@ class Fn:
     # ---------------- loops -----------------------------------------------------------------------
     def loop_common(self, body, env, extra_bound):
         muts = [v for v in self.assigned(body) if v in env]
+        if self.retkind == 'mutdoc' and env.get('self_doc') == 'val' and 'self_doc' not in muts: muts.append('self_doc')
         used = self.mentions(body)
         caps = [v for v in env if '.' not in v and v in used and v not in muts and v not in extra_bound
                 and not env[v].startswith('alias:')]
@@ -1297,7 +1425,7 @@ class Fn:
         if has_ret:
             r = self.fresh('r')
             pat = sigma if muts else '_'
-            return paren(f"match {callsite} with\n| .ret {r} => {ctx.ret(r) if ctx.cont is None else ctx.ret(r)}\n| .done {pat} =>\n{ind(rest(env))}")
+            return paren(f"match {callsite} with\n| .ret {r} => {ctx.raw(r)}\n| .done {pat} =>\n{ind(rest(env))}")
         if not muts: return rest(env)
         if len(muts) == 1: return f"let {muts[0]} := {callsite}\n{rest(env)}"
         return paren(f"match {callsite} with\n| {sigma} =>\n{ind(rest(env))}")
@@ -1317,7 +1445,7 @@ class Fn:
         sty = ' × '.join(self.lty(env, v) for v in muts) if muts else 'Unit'
         rty = f"Flow ({self.rtype}) ({sty})"
         call = lambda env3: f"{lname} {' '.join(caps + ['_fuel'] + muts)}"
-        ctx_b = Ctx(lambda t: f".ret ({t})", cont=call, brk=lambda env3: f".done {sigma}")
+        ctx_b = Ctx(lambda t: f".ret ({self.wrap(t)})", cont=call, brk=lambda env3: f".done {sigma}", raw=lambda r: f".ret ({r})")
         body_code = self.S(body, dict(env), ctx_b, call)
         loop_code = self.C(cond, env, ctx_b, body_code, f".done {sigma}")
         params = ''.join(f" ({c} : {self.lty(env, c)})" for c in caps)
@@ -1342,7 +1470,7 @@ class Fn:
         sigma = self.tuple_of(muts); sty = ' × '.join(self.lty(env, v) for v in muts)
         rty = f"Flow ({self.rtype}) ({sty})"
         call = lambda env3: f"{lname} {' '.join(caps + ['_fuel'] + muts)}"
-        ctx_b = Ctx(lambda t: f".ret ({t})", cont=call, brk=lambda env3: f".done {sigma}")
+        ctx_b = Ctx(lambda t: f".ret ({self.wrap(t)})", cont=call, brk=lambda env3: f".done {sigma}", raw=lambda r: f".ret ({r})")
         h, th = self.term(hdr, env)
         if not is_opt(th): raise Unsupported("while let on " + th)
         binder, env_b = self.closure_head(('closure', [pat[2][0]], None), opt_inner(th), env)
@@ -1352,7 +1480,8 @@ class Fn:
         argtys = ['Nat'] + [self.lty(env, v) for v in muts]
         self.loops.append(
             f"def {lname}{params} : {' → '.join(argtys)} → {rty}\n" +
-            (f"  | {', '.join(['0'] + ['_'] * len(muts))} => .ret (.panic \"fuel\")\n" if self.retkind != 'pure' else
+            (f"  | {', '.join(['0'] + muts)} => .ret ((self_doc, Res.panic \"fuel\"))\n" if self.retkind == 'mutdoc' else
+             f"  | {', '.join(['0'] + ['_'] * len(muts))} => .ret (.panic \"fuel\")\n" if self.retkind != 'pure' else
              f"  | {', '.join(['0'] + muts)} => .done {sigma}\n") +
             f"  | {', '.join(['_fuel + 1'] + muts)} =>\n{ind(loop_code, 4)}")
         callsite = f"{lname} {' '.join(caps + [f'({consumed}.length + 1)'] + muts)}"
@@ -1379,6 +1508,11 @@ class Fn:
             elif rep == 'docself':
                 # `&mut self` of a document: the mutable variable `self_doc`; every exit returns it with the result
                 lparams.append(('self_doc', 'val')); env['self_doc'] = 'val'; env['self'] = 'alias:self_doc:docref'
+            elif rep in ('vrefmut', 'arefmut', 'orefmut'):
+                # a `&mut` into the document: (location, node); the document itself is the hidden first parameter `self_doc`
+                if 'self_doc' not in env:
+                    lparams.insert(0, ('self_doc', 'val')); env['self_doc'] = 'val'
+                lparams.append((pname, rep[:-3])); env[pname] = rep[:-3]
             elif rep == 'bufself':
                 # `&mut self` of a PointerBuf: its text is the mutable variable `self_0`; every exit returns it
                 lparams.append(('self_0', 'bytes')); env['self_0'] = 'bytes'; env['self'] = 'alias:self_0:ptrself'
@@ -1388,7 +1522,7 @@ class Fn:
         if len(rnames) != len(spec['params']): raise Unsupported(f"parameter list changed: {rnames}")
         ctx = Ctx(lambda t: t)
         if self.retkind == 'mutdoc':
-            ctx = Ctx(lambda t: f"(self_doc, {t})")
+            ctx = Ctx(lambda t: f"(self_doc, {t})", raw=lambda r: r)
             code = self.S(self.norm_stmt_block(self.to_return(self.block)), env, ctx, lambda env2: self.bad("function body falls off its end"))
             ps = ''.join(f" ({n} : {LEANTY[t]})" for n, t in lparams)
             return '\n\n'.join(self.loops + [f"def {spec['lean']}{ps} : {self.rtype} :=\n{ind(code)}"])
